@@ -28,8 +28,9 @@ PROPS = {
     "C03": {
         "level": "proof", "prove": True, "ground": [],
         "assumptions": [
-            "stack exhaustion on pathological nesting and out-of-memory are fatal errors outside any contract (not proved)",
-            "partial correctness: termination of the scanner loop and of the recursive descent is not proved",
+            "termination (proved): every loop has a variant - derived for range loops (bound - index, the bound is evaluated once), a decreases clause for the loops of scan (unread bytes of the buffer, with progress clauses on every reader: the -or-later rewrite shortens the buffer by 8 and moves the index back by 9 only after an id of >= 9 bytes was read) and sortAndDedup; every call that can lead back to its caller strictly decreases a lexicographic measure of natural numbers - (tokens left, rank) for the four mutually recursive parser functions, (size of the node's ghost tree, rank) for expandOr / expandOrTerm / expandAnd / expandAndTerm (tsize >= 1 by structural induction, cvc5); a loop or recursive call without a variant / measure is a failed obligation",
+            "termination of the standard-library callees (sort.Slice with a terminating comparator, regexp, strings.*, fmt.Sprintf) is assumed",
+            "stack exhaustion on pathological nesting (the recursion depth is bounded by the measures, but the stack size is not modelled) and out-of-memory are fatal errors outside any contract (not proved)",
         ],
     },
     "C04": {
